@@ -130,7 +130,7 @@ def call(op: str, a: dict) -> dict:
             elif op == "redistribute":
                 K.redistribute(a["mode"])
             elif op == "extract":
-                res = K.extract(I(a["idx"]) if len(a["idx"]) > 1 else int(a["idx"][0]))
+                res = K.extract(I(a["idx"]) if len(a["idx"]) > 1 else (np.int64(a["idx"][0]) if bind.get_layout() == "swapped" else int(a["idx"][0])))
             elif op == "permute":
                 res = K.permute(I(a["order"]))
             elif op == "tovec":
@@ -152,7 +152,7 @@ def call(op: str, a: dict) -> dict:
                 L = K.tolist()
                 K2 = ttb.ktensor([np.array(x) for x in L])
                 extra["list_reproduces_tensor"] = bool(np.allclose(K2.full().data, K.full().data, atol=1e-8))
-                L0 = K.tolist(0)
+                L0 = K.tolist(np.int64(0) if bind.get_layout() == "swapped" else 0)
                 K3 = ttb.ktensor([np.array(x) for x in L0])
                 extra["list_reproduces_tensor"] = extra["list_reproduces_tensor"] and bool(
                     np.allclose(K3.full().data, mk(a["K"]).full().data, atol=1e-8))
